@@ -54,12 +54,16 @@ def main(tier):
         path = gen_c09.make(g)
         ths = [None] if g <= 3 else [[3, 1], [-1, 2]]
         for th, strict in [(t, None) for t in ths]:
-            prm = {} if th is None else {'th': th}
-            jobs.append(dict(path=path, fname='_c09_list', params=prm, timeout={1: 60, 2: 60, 3: 240, 4: 300, 5: 900, 6: 2400}[g],
-                             twin='_c09_reach' if g >= 2 else None, twin_timeout=60,
-                             label=f'closest-list references={g}' + ('' if th is None else f' thresholds={th}') + ('' if strict is None else f' strict={bool(strict)}'),
-                             bounds={'references': g, 'distances': 'every order type incl. ties', 'report_closest': f'1..{g + 1}', 'unstable sort result': 'every sorting permutation',
-                                     'thresholds': 'symbolic (absent or any order type)' if th is None else th, 'classify_strict': 'both' if strict is None else bool(strict)}))
+            # the largest sizes are split by list length as well (one condition per length), so that each finishes within its limit
+            for nfix in ([None] if g <= 4 else list(range(1, g + 2))):
+                prm = {} if th is None else {'th': th}
+                if nfix is not None:
+                    prm['n'] = nfix
+                jobs.append(dict(path=path, fname='_c09_list', params=prm, timeout={1: 60, 2: 60, 3: 240, 4: 300, 5: 900, 6: 2400}[g],
+                                 twin='_c09_reach' if g >= 2 and (nfix is None or nfix >= 2) else None, twin_timeout=60 if g <= 4 else 300,
+                                 label=f'closest-list references={g}' + ('' if th is None else f' thresholds={th}') + ('' if nfix is None else f' report_closest={nfix}'),
+                                 bounds={'references': g, 'distances': 'every order type incl. ties', 'report_closest': f'1..{g + 1}' if nfix is None else nfix, 'unstable sort result': 'every sorting permutation',
+                                         'thresholds': 'symbolic (absent or any order type)' if th is None else th, 'classify_strict': False}))
     for g in ((2, 3) if tier == 'quick' else (2, 3, 4)):
         jobs.append(dict(path=gen_c09.make(g), fname='_c09_strict', params={}, timeout=400 if g <= 3 else 2400, label=f'closest-list under strict classification references={g}',
                          bounds={'references': g, 'distances': 'values 0..3 (all tie patterns)', 'thresholds': 'genus and species each absent / 1 / 2', 'report_closest': f'1..{g + 1}'}))
